@@ -266,6 +266,11 @@ impl Recv {
                 .pending_recv
                 .push_back(&mut self.buffer, Event::Headers(message));
             stream.notify_recv();
+            if stream.state.is_recv_end_stream() {
+                // No more push promises can arrive: a task waiting for them
+                // has to see the end, too.
+                stream.notify_push();
+            }
 
             // Only servers can receive a headers frame that initiates the stream.
             // This is verified in `Streams` before calling this function.
@@ -436,6 +441,7 @@ impl Recv {
             .pending_recv
             .push_back(&mut self.buffer, Event::Trailers(trailers));
         stream.notify_recv();
+        stream.notify_push();
 
         Ok(())
     }
@@ -778,6 +784,9 @@ impl Recv {
         // Push the frame onto the recv buffer
         stream.pending_recv.push_back(&mut self.buffer, event);
         stream.notify_recv();
+        if stream.state.is_recv_end_stream() {
+            stream.notify_push();
+        }
 
         Ok(())
     }
